@@ -130,6 +130,8 @@ type cfgT struct {
 	params   [][2][]byte
 	version  []byte
 	tls      bool
+	tag      int  // which server of a group this configuration builds (several servers from one option list)
+	shareMw  bool // middlewares 1.. are option VALUES shared with the other servers of the group
 	tlsEmpty int // without certificates: 0 no TLS configuration at all, 1 an empty configuration, 2 an empty non-nil certificate list, 3 a pre-sized empty list
 	mws      []bool
 	term     string // none ok err
